@@ -25,7 +25,9 @@ Lines == <<
   <<"_", "e", "{", "1", ",", "0", "}", ":", "|", "|", "|", "t", ":", "warning", "|", "#", "b">>,
   <<"_", "e", "{", "0", ",", "2", "}", ":", "|", Esc, "|", "p", ":", "normal", "|", "t", ":", "success">>,
   <<"_", "e", "{", "1", ",", "1", "}", ":", "a", "|", "b", "|", "#", "h", "o", "s", "t", ":", "w", ",", "a", ":", "b">>,      \* an event with a host: tag
-  <<"_", "e", "{", "3", ",", "1", "}", ":", "a", Esc, "|", "b">>                        \* backslash-n in the TITLE: two bytes that stay two bytes
+  <<"_", "e", "{", "3", ",", "1", "}", ":", "a", Esc, "|", "b">>,                       \* backslash-n in the TITLE: two bytes that stay two bytes
+  \* characters of more than one byte in title and text: the header counts BYTES (title 3 = a + one two-byte character, text 3 = one + b)
+  <<"_", "e", "{", "3", ",", "3", "}", ":", "a", "U2", "|", "U2", "b", "|", "#", "a", ":", "b">>
 >>
 ASSUME \A i \in 1..Len(Lines) : PLine(Lines[i]).k = "event"
 Cfgs == {[mode |-> "standalone", b |-> b, tokens |-> t, ih |-> ih] : b \in {0, 1, 2}, t \in {1, 2}, ih \in BOOLEAN}
@@ -40,6 +42,8 @@ Init == cfg \in Cfgs /\ sched = <<>>
 Next == Len(sched) < MaxLen /\ \E o \in Ops(cfg) : sched' = Append(sched, o) /\ UNCHANGED cfg
 Spec == Init /\ [][Next]_<<cfg, sched>>
 Core == {
+  [cfg |-> [mode |-> "standalone", b |-> 2, tokens |-> 1, ih |-> FALSE], sched |-> <<O("known", 0, "x:pos"), O("ev", 7, "x"), O("ev", 1, "x"), O("ev", 7, "y"), O("wait", 0, "")>>],
+  [cfg |-> [mode |-> "forwarder", b |-> 1, tokens |-> 1, ih |-> FALSE], sched |-> <<O("ev", 7, "x"), O("evhttp", 7, ""), O("wait", 0, "")>>],
   [cfg |-> [mode |-> "standalone", b |-> 1, tokens |-> 1, ih |-> FALSE], sched |-> <<O("known", 0, "x:neg"), O("ev", 6, "x"), O("evsp", 2, "x"), O("evsp", 1, "x"), O("wait", 0, "")>>],
   [cfg |-> [mode |-> "forwarder", b |-> 1, tokens |-> 1, ih |-> FALSE], sched |-> <<O("ev", 6, "x"), O("evsp", 1, "x"), O("wait", 0, "")>>],
   [cfg |-> [mode |-> "forwarder", b |-> 1, tokens |-> 1, ih |-> FALSE], sched |-> <<O("evbad", 5, "x"), O("ev", 2, "x"), O("wait", 0, "")>>],
